@@ -163,7 +163,9 @@ def reproduce_conc(work, binary, part, args, seed, reasons, times=5):
     """A concurrency rejection counts when the same comparison fails again in a re-run of the same
     configuration (same seed and plan); interleavings are not repeatable exactly without hooks."""
     for n in range(times):
-        trace, _ = drv(binary, part, work, "repro_%s%d" % (part, n), args, seed)
+        # a race build must not end the run at its first report (reports are judged from the main run)
+        rl = work.path("repro_race") if "-race-" in os.path.basename(binary) else None
+        trace, _ = drv(binary, part, work, "repro_%s%d" % (part, n), args, seed, race_log=rl)
         v = judge(work, trace, "repro_%s%d" % (part, n))
         got = {r for b in v["bad"] for r in b["reasons"]}
         if got & reasons:
